@@ -28,6 +28,10 @@ CHECKS = {
          "Every tree with <=2 operators over the full operator set (and <=3 over a reduced set) is evaluated by a reference evaluator that never sees precedence, printed with minimal parentheses for the documented grammar, and rendered by the real engine in output and if position; values, zero-divisor errors and short-circuit call counts are compared.",
          "The judged fragment excludes what the property leaves open (listed in the evidence rule); one grammar-design deviation (sign of zero under a prefix minus) is a recorded known finding.",
          "DESIGN.md §3 C07"),
+ "C15": ("bounded-exhaustive enumeration of documents (whitespace runs x constructs x every subset of dash markers x all four option settings) with a metamorphic hand-stripped twin; spaceless bodies up to a length",
+         "Every document of the bounded family is rendered with its markers/options and compared with the rendering of the source from which the generator deleted exactly the named whitespace by hand; spaceless is compared with a direct reference. Exhaustive within the whitespace-run alphabet and construct set.",
+         "The hand-stripping rules are those of the property text (DESIGN.md Appendix A.7); first render of a fresh compile only (repeated renders are C04).",
+         "DESIGN.md §3 C15"),
 }
 
 NOT_YET = {}
